@@ -60,11 +60,11 @@ func c19(c *core.Ctx) {
 		}
 	}
 
-	c.Clause("C19.1", "engine mutations (saveNewBlock, insertConfirms, UpdateStable, UpdateFork*) run only with DPoVP.chainLock held, on every path from every caller")
+	c.Clause("C19.1", "engine mutations (saveNewBlock, SaveConfirm, UpdateStable, UpdateFork*) and the filter that decides which received confirms are new (VerifyConfirmPacket: it reads the confirms the block holds now) run only with DPoVP.chainLock held, on every path from every caller")
 	c.Run("chainLock", func() {
 		key := "consensus.DPoVP.chainLock"
 		n := 0
-		for _, m := range []*types.Func{c.Method(cons+".DPoVP", "saveNewBlock"), c.Method(cons+".DPoVP", "insertConfirms"), c.Method(cons+".DPoVP", "UpdateStable"),
+		for _, m := range []*types.Func{c.Method(cons+".DPoVP", "saveNewBlock"), c.Method(cons+".Validator", "VerifyConfirmPacket"), c.Method(cons+".Confirmer", "SaveConfirm"), c.Method(cons+".DPoVP", "UpdateStable"),
 			c.Method(cons+".StableManager", "UpdateStable"), c.Method(cons+".ForkManager", "UpdateFork"), c.Method(cons+".ForkManager", "UpdateForkForConfirm"), c.Method(cons+".ForkManager", "SetHeadBlock")} {
 			_, sites := callersOf(c, m)
 			for _, s := range sites {
@@ -74,6 +74,14 @@ func c19(c *core.Ctx) {
 				// constructors initialise the head before the engine is shared
 				if strings.HasPrefix(core.Outer(s.Caller).Name(), "New") {
 					continue
+				}
+				// the node's own confirm of a block (a signature it just made itself) is saved by the store under the store's lock and
+				// de-duplicated by bytes there; only confirms that went through the distinct-signer filter need the filter's hold
+				if m.Name() == "SaveConfirm" {
+					a := s.Instr.Common().Args
+					if len(a) == 3 && core.SliceHasCall(core.Slice(a[2]), c.Method(cons+".Confirmer", "confirmBlock")) {
+						continue
+					}
 				}
 				n++
 				ok, why := la.Held(s.Instr, key, core.WriteHeld)
@@ -176,6 +184,9 @@ func c19(c *core.Ctx) {
 		}
 		c.Check("atomic/ForkManager.head", "atomic-only", okT && okUse && uses >= 2, token.NoPos, "ForkManager.head is an atomic.Value used only through its methods (%d uses)", uses)
 	})
+
+	c.Clause("C19.4", "the hand-over between the chain thread and the asynchronous store writer keeps what is pending: an entry of FileQueue.Index counts the acknowledged, not yet persisted writes of its key and leaves only with the last of them, so a reader on any thread gets the latest committed value while the writer is behind (the pending-index rules of C08.4, evaluated here as well)")
+	c.Run("pending-index", func() { c08PendingIndex(c) })
 
 	c.Clause("C19.3", "no mutex is re-acquired while held and the lock order is acyclic across the engine, the store and the pool")
 	c.Run("order", func() {
